@@ -77,6 +77,7 @@ Theorem C02ev_accepts : forall vdocs m e,
   run_evs (map events_of_forest (map (map erase_v) vdocs)) = Ok e ->
   clash_free_tree e = true -> names_plain e = true ->
   Forall (Forall data_oriented) vdocs ->
+  Forall (Forall (fun v => known_k3_b v = false)) vdocs ->
   forall deny vd, In vd vdocs ->
     exists v, de_doc qx_flavour (render_abs quick_xml_de e) deny vd = Some v.
 Proof. exact ev_accepts. Qed.
